@@ -145,11 +145,13 @@ Fixpoint collapse (axis_ids : list Z) (k : Z) (j : list Z) : list Z :=
   | i :: j' => (if mem k axis_ids then i else 0) :: collapse axis_ids (k + 1) j'
   end.
 
-Definition roi_pixel_mask (P : list Z -> bool) (shape : list Z) (axis_ids : list Z) (view : list ventry)
+(* own = every attribute of the ROI is a pixel component ID of THIS dataset (att in data.pixel_component_ids);
+   pixel IDs of another, linked dataset are evaluated generically: their att.axis is an axis of the other dataset *)
+Definition roi_pixel_mask (own : bool) (P : list Z -> bool) (shape : list Z) (axis_ids : list Z) (view : list ventry)
   : list Z * (list Z -> bool) :=
   let sels := sel_of shape view in
   let sh := sel_shape sels in
-  if has_int view then
+  if has_int view || negb own then
     (* the view removes a dimension: generic evaluation on every element *)
     (sh, fun j => P (roi_coords axis_ids (to_under sels j)))
   else
@@ -220,11 +222,11 @@ Definition run_case (t : tree) : tree :=
       | Ok r => enc_mask r
       end
   (* RoiSubsetState on pixel axes: table = roi.contains on the grid of the named axes (row-major over them) *)
-  | T 2 [sh; ax; tsh; tb; vw] =>
+  | T 2 [sh; ax; tsh; tb; vw; T own _] =>
       let shape := to_zs sh in
       if negb (view_ok shape (dec_view vw)) then err IndexError else
       let P := fun c => nthb (to_bools tb) (flat_index (to_zs tsh) c) in
-      enc_mask (roi_pixel_mask P shape (to_zs ax) (dec_view vw))
+      enc_mask (roi_pixel_mask (negb (own =? 0)) P shape (to_zs ax) (dec_view vw))
   (* world component: returns for every element the pixel tuple the world function is evaluated at *)
   | T 3 [sh; dep; vw] =>
       let shape := to_zs sh in
